@@ -22,7 +22,7 @@ func init() {
 	fw.Register(&fw.Property{
 		ID:    "C10",
 		Level: "fault_enumeration",
-		Rule: "ENUMERATED for announcement lists of length <= 4: number of valid heads {1,2} x bad kind {non-writer author; forged author in four forms: victim identity block and key (signature fails at join), victim id with the attacker's key and signatures, victim identity block with the attacker's key, victim id and key with the attacker's identity signatures; wrong database; wrong claimed hash in two forms: the address of another valid head, an unrelated address} x position of the bad head in the list x placement {same message, message before, message after the valid one} x receiver {empty, already holding a prefix} x fetch-completion order (remote block fetches of the receiver are held and released in a PRNG permutation; the observed completion order is part of the signature); followed by an honest re-announcement of the valid heads only; in half of the forged-author cells the impersonated writer is one that has not written (nor been verified by anyone) before, and its first genuine entries are announced after the forgery. " +
+		Rule: "ENUMERATED for announcement lists of length <= 4: number of valid heads {1,2} x bad kind {non-writer author; forged author in four forms: victim identity block and key (signature fails at join), victim id with the attacker's key and signatures, victim identity block with the attacker's key, victim id and key with the attacker's identity signatures; a forged head whose parent, or whose parent's parent, is a block nobody holds (its fetch waits for ever); a forged head naming 40 blocks that are not entries; wrong database; wrong claimed hash in two forms: the address of another valid head, an unrelated address} x position of the bad head in the list x placement {same message, message before, message after the valid one} x receiver {empty, already holding a prefix} x fetch-completion order (remote block fetches of the receiver are held and released in a PRNG permutation; the observed completion order is part of the signature); followed by an honest re-announcement of the valid heads only; in half of the forged-author cells the impersonated writer is one that has not written (nor been verified by anyone) before, and its first genuine entries are announced after the forgery. " +
 			"distinct = cell + observed fetch-completion order; non-trivial = the bad head was delivered, >= 2 remote fetches went through the shuffling gate, and the re-announcement was delivered",
 		Assumptions: []string{"whether a bad entry got in is C03/C04's statement and is not judged here", "structurally undecodable blocks are outside this property"},
 		Cases:       c10Cases,
@@ -33,7 +33,7 @@ func init() {
 	})
 }
 
-var c10Bad = []string{"non-writer", "forged-sig-fails", "forged-identity", "forged-own-key", "forged-id-key-bad-sigs", "forged-dangling-next", "forged-junk-nexts", "wrong-database", "wrong-hash", "wrong-hash-unrelated"}
+var c10Bad = []string{"non-writer", "forged-sig-fails", "forged-identity", "forged-own-key", "forged-id-key-bad-sigs", "forged-dangling-next", "forged-dangling-grandparent", "forged-junk-nexts", "wrong-database", "wrong-hash", "wrong-hash-unrelated"}
 var c10Place = []string{"same", "before", "after"}
 
 func c10Cases(tier string, seed int64) []fw.Case {
@@ -227,6 +227,19 @@ func c10Run(c fw.Case) fw.Verdict {
 				return nil, err
 			}
 			return A.Forge(fBlockVictimKey, db.Addr, opPayload(typ, 50+i, "x"), []cid.Cid{dangling}, nil, maxT+1+i, victim)
+		case "forged-dangling-grandparent":
+			// as the previous kind, one level further down: the head's parent is a second forged entry that
+			// R can fetch, and THAT entry's `next` names the block nobody holds. The head's own fetch
+			// completes, so the refused head sits in the replicator's buffer with an ancestry that never arrives
+			dangling, err := cid.Decode("bafyreiaqcgb4rd2doanu7r5e2nhmvu2jkm3wqrjhnt7uzig6pjhbx6lzhu")
+			if err != nil {
+				return nil, err
+			}
+			parent, err := A.Forge(fBlockVictimKey, db.Addr, opPayload(typ, 60+i, "x"), []cid.Cid{dangling}, nil, maxT+1+i, victim)
+			if err != nil {
+				return nil, err
+			}
+			return A.Forge(fBlockVictimKey, db.Addr, opPayload(typ, 50+i, "x"), []cid.Cid{parent.Hash}, nil, maxT+2+i, victim)
 		case "forged-junk-nexts":
 			// passes the pre-check like the previous kind; its 40 `next` name blocks that exist but are
 			// not log entries: 40 fetches that fail, more than the replicator has fetch slots
@@ -299,7 +312,7 @@ func c10Run(c fw.Case) fw.Verdict {
 	case "before":
 		deliveredBad = send(bads)
 		if rng.Intn(2) == 0 {
-			e.W.WaitIdle(sim.IdleOpts{BlockedOK: bad == "forged-dangling-next", IgnoreReplicators: bad == "forged-dangling-next"})
+			e.W.WaitIdle(sim.IdleOpts{BlockedOK: strings.HasPrefix(bad, "forged-dangling-"), IgnoreReplicators: strings.HasPrefix(bad, "forged-dangling-")})
 		}
 		send(valid)
 	case "after":
@@ -310,7 +323,7 @@ func c10Run(c fw.Case) fw.Verdict {
 		deliveredBad = send(bads)
 	}
 	// a head naming a block nobody holds leaves one fetch waiting for ever: that is rest, not work in progress
-	dangling := bad == "forged-dangling-next"
+	dangling := strings.HasPrefix(bad, "forged-dangling-")
 	idle := sim.IdleOpts{BlockedOK: dangling, IgnoreReplicators: dangling}
 	if !e.W.WaitIdle(idle) {
 		if e.W.Wedged(confirmWindow()) {
